@@ -105,6 +105,7 @@ type Exec struct {
 	stamps bool // record the forwarding ghost (see chanRecv/chanSend)
 	boxAxioms map[string]bool
 	cntMarkAx bool
+	fsumAx    bool
 	subFuns   []string // declared sub-object functions (embedded struct fields)
 	witnessAx bool
 	w        *World
